@@ -280,6 +280,8 @@ pub fn interf_text(c: u8) -> &'static str {
     match c {
         1 => "[first every kind of search (with and without target, cycle searches, transposed) is run from every node] ",
         2 => "[the closure also looks up the root's key at both end points of the edge it is handed and runs every kind of search from the edge's target] ",
+        3 => "[the closure raises the value of the node the edge leads to by 1] ",
+        4 => "[the closure lowers the value of the node the edge leads to by 1] ",
         _ => "",
     }
 }
@@ -322,6 +324,11 @@ pub fn exec<F: Fl>(w: &World<F>, root: K, cfg: &Cfg, reject: &[Arc3]) -> Result<
             let a = F::edge_accessors(e);
             let ok = !reject.contains(&a);
             trace.push((a, ok));
+            if mode == 3 || mode == 4 {
+                // the value of the node the edge leads to changes while it may be waiting in the frontier
+                let (_, t, _) = F::edge_parts(e);
+                F::bump(&t, if mode == 3 { 1 } else { -1 });
+            }
             if mode == 2 {
                 // look-ups on both end points first (a look-up must not disturb a running traversal either)
                 let (s, t, _) = F::edge_parts(e);
@@ -1424,6 +1431,12 @@ pub fn sweep<F: Fl>(job: &Job, out: &mut Out) {
                     }
                     // node values break the renaming symmetry: no priority-first kinds on iso shapes
                     if p.iso && matches!(cfg.kind, Kind::PfsMin | Kind::PfsMax) {
+                        continue;
+                    }
+                    // changing node values only concern the priority-first kinds; the second-use
+                    // differential compares call traces, whose order legitimately depends on the values
+                    // (only the clause that does not mention node values is checked: every edge once, no target)
+                    if interf() >= 3 && (!matches!(cfg.kind, Kind::PfsMin | Kind::PfsMax) || mode.starts_with("reuse:") || cfg.meth != Meth::ForEach || cfg.target.is_some() || cfg.res == ResK::Cycle) {
                         continue;
                     }
                     crate::progress::tick();
